@@ -29,7 +29,7 @@ pub fn run(cli: &Cli, rep: &Report) {
     rep.rule(
         "(a) partition invariance: for LZMA, LZMA2/XZ without chunk/block size and LZIP, all four mode x finder combinations: EVERY single cut position of a 1.5 KiB input, every k-th (k=1 thorough, 7 quick) \
          plus all boundary cuts of a 9 KiB input, every pair of boundary cuts of window-moving inputs (dict 4096, 300/600 KiB): compressed bytes identical to the single-write run; \
-         (b) allocator independence: every case of a 40-case set encoded under a poisoning allocator with four fills (bytes A5, bytes 5A, words 00000005, words 00000100): identical outcome (bytes, error or panic); \
+         (b) allocator independence: every case of a 40-case set encoded under a poisoning allocator with four fills (bytes A5, bytes 5A, words 00000005, words 00000100): identical outcome (bytes, error or panic); (d) window independence: MICRO(A3,6) and 250 echo/periodic/text shapes x 8 encoder settings with the window buffer pre-filled with 00 / 61 / FF / 5A: identical bytes; \
          (c) history independence: for every ordered pair (y, x) of a 12-input set and every writer, encode(y) then encode(x) gives the same bytes for x whatever y was; non-trivial = at least one cut / a differing predecessor",
     );
     rep.assumption("the poisoning allocator fills every non-zeroed allocation; zeroed allocations (calloc) stay zero as the crate requests them");
@@ -264,6 +264,98 @@ pub fn run(cli: &Cli, rep: &Report) {
             rep.nontrivial_many(&st.1);
         },
     );
+    // (d) independence of the window's initial content: the encoder may only look at bytes it was given. The window
+    // buffer is pre-filled (cfg-gated hook) with 00 (what it really is at first), 61, FF and 5A; the compressed bytes must
+    // be identical under every fill. Inputs: MICRO(A3,<=6) and echo / periodic / text shapes whose rep matches run to the
+    // last byte, so that a length limit that is one too large compares the byte after the data with a real one.
+    {
+        struct SCase {
+            cont: Container,
+            o: Opts,
+            input: Input,
+        }
+        let mut scases: Vec<SCase> = vec![];
+        let sopts: Vec<Opts> = minigrid(&[4096]);
+        let l = if thorough { 7 } else { 6 };
+        for s in 0..gen::micro_count(3, l) {
+            for o in &sopts {
+                for c in [Container::LzmaRawMarker, Container::Lzma2] {
+                    if c.accepts(o) {
+                        scases.push(SCase { cont: c, o: *o, input: Input::Bytes(gen::micro_nth(&A3, s)) });
+                    }
+                }
+            }
+        }
+        let mut shapes: Vec<Vec<Seg>> = vec![];
+        for n in [40usize, 200, 1000] {
+            for d in [1usize, 3, 7, 30] {
+                for phase in 0..16u64 {
+                    shapes.push(vec![Seg::E(d, n + phase as usize, 1000 + phase)]);
+                }
+                shapes.push(vec![Seg::P(d, n)]);
+                shapes.push(vec![Seg::C(n), Seg::D(d.max(2) * 5, 20)]);
+            }
+        }
+        for sh in &shapes {
+            for o in &sopts {
+                for c in [Container::LzmaRawMarker, Container::Lzma2] {
+                    if c.accepts(o) {
+                        scases.push(SCase { cont: c, o: *o, input: Input::Shape(sh.clone()) });
+                    }
+                }
+            }
+        }
+        rep.extra("stale_window", json!({"cases": scases.len(), "fills": ["00", "61", "FF", "5A"]}));
+        let fills: [Option<u8>; 4] = [Some(0x00), Some(0x61), Some(0xFF), Some(0x5A)];
+        let mut outcomes: Vec<Vec<u64>> = vec![];
+        for f in fills {
+            lzma_rust2::verif::stale::set(f);
+            let out: Vec<std::sync::atomic::AtomicU64> = (0..scases.len()).map(|_| std::sync::atomic::AtomicU64::new(0)).collect();
+            par_for_with(
+                scases.len(),
+                0,
+                |_| (),
+                |_, i| {
+                    let c = &scases[i];
+                    let desc = || format!("C13|stale|{}|{}|{}", c.cont.desc(), c.o.desc(), c.input.desc());
+                    if !cli.selected_with(desc) {
+                        return;
+                    }
+                    let input = c.input.build(cli.seed);
+                    let h = match catch(|| codec::encode(&c.cont, &c.o, &input, &[])) {
+                        Ok(Ok(b)) => fnv(&b) ^ (b.len() as u64).rotate_left(40) | 1,
+                        Ok(Err(e)) => fnv(e.to_string().as_bytes()) | 1,
+                        Err(p) => fnv(p.msg.as_bytes()) | 1,
+                    };
+                    out[i].store(h, std::sync::atomic::Ordering::Relaxed);
+                },
+                |_| {},
+            );
+            outcomes.push(out.iter().map(|a| a.load(std::sync::atomic::Ordering::Relaxed)).collect());
+        }
+        lzma_rust2::verif::stale::set(None);
+        let mut n = 0u64;
+        let mut nt = vec![];
+        for (i, c) in scases.iter().enumerate() {
+            if outcomes[0][i] == 0 {
+                continue; // not selected
+            }
+            n += 1;
+            let desc = || format!("C13|stale|{}|{}|{}", c.cont.desc(), c.o.desc(), c.input.desc());
+            if let Some(k) = (1..fills.len()).find(|k| outcomes[*k][i] != outcomes[0][i]) {
+                rep.violation(
+                    Violation::new("stale-window-dependent", "compressed bytes depend on what the window buffer held before the input was copied in", desc())
+                        .attr("family", c.cont.family())
+                        .attr("part", "stale")
+                        .detail(format!("fill 00: outcome {:016x}; fill {:02x}: outcome {:016x}", outcomes[0][i], fills[k].unwrap(), outcomes[k][i])),
+                );
+            } else {
+                nt.push(hash_desc(&desc()));
+            }
+        }
+        rep.add_many(&[("evaluations", n * fills.len() as u64), ("stale_window_runs", n * fills.len() as u64)]);
+        rep.nontrivial_many(&nt);
+    }
     rep.sample(json!({"partition": "lzma2 dict 4096 Normal/BT4, input C5000+X4000, cut at 4097"}));
     rep.sample(json!({"poison": "xz block 4096, input X300000, allocator fills A5 / 5A / word 5 / word 0x100"}));
     rep.sample(json!({"history": "lzip after R70000 then C9000 vs after nothing"}));
